@@ -230,7 +230,7 @@ def b1_signature(f):
             "detail": f["detail"] if f["kind"] != "state" else ""}
 
 
-def family_check(prop, tier, b1_instances, b2_families, level_text, assumptions, b2_progs, b2_steps=30, label_filter=None):
+def family_check(prop, tier, b1_instances, b2_families, level_text, assumptions, b2_progs, b2_steps=30, label_filter=None, extra=None):
     """Generic check for a sequential-meaning property: B1 tours of the listed MC instances + B2 random
     programmes of the listed families.  label_filter(branch) -> True if a mismatch with that model branch
     belongs to this property (others are reported by the property that owns the command)."""
@@ -276,6 +276,8 @@ def family_check(prop, tier, b1_instances, b2_families, level_text, assumptions,
         if len(cov["samples"]) < 3:
             d = [f for f in os.listdir(os.path.dirname(path))] if r["mismatches"] else []
     cov["foreign_mismatches_left_to_owner"] = foreign
+    if extra is not None:
+        extra(v, cov, tier, seed)
     cov["samples"] = sample_cases(b1_instances, b2_families, seed)
     v.finish(tier, "model_checking", cov, assumptions)
 
